@@ -181,6 +181,16 @@ func (c *c02Gen) exitAction(cx c02Ctx) string {
 	}
 	// exit j is taken when bit j-1 of k is set: one call can take several exits in a row
 	// (an exception, then what its handler does, then what the finally body does)
+	if g.Chance(1, 3) {
+		// the exit on a line of its own: the raising statement is then the last instruction of its line, and the
+		// traceback must still name that line, not the one after it
+		c.kinds["exit-on-own-line"] = true
+		if g.Bool() {
+			// ... followed by a statement of the same block that is never reached
+			return fmt.Sprintf("if k & %d:\n    %s\n    _log.append('unreached')\n", 1<<uint(j-1), act)
+		}
+		return fmt.Sprintf("if k & %d:\n    %s\n", 1<<uint(j-1), act)
+	}
 	return fmt.Sprintf("if k & %d: %s\n", 1<<uint(j-1), act)
 }
 
